@@ -31,6 +31,10 @@ func init() {
 			{ID: "C08.10", Desc: "a 304 freshens the stored response only when it answers the stored validators (no validator of the client reaches the origin)", Run: func(c *Ctx) { ruleClientValidatorsRemoved(c, "C08.10") }, MinSites: 1},
 			{ID: "C08.11", Desc: "the matcher's position refers to the caller's list", Run: func(c *Ctx) { ruleMatcherIndexesCallersSlice(c, "C08.11") }, MinSites: 1},
 			{ID: "C08.12", Desc: "the background reply is handled before the waiter (and with it the request context) is released", Run: func(c *Ctx) { ruleNoReleaseBeforeWriteBack(c, "C08.12") }, MinSites: 1},
+			{ID: "C08.13", Desc: "a background 304 freshens only the response whose validators were sent (the entry may have been replaced meanwhile)", Run: func(c *Ctx) { ruleBackground304SelectsEntry(c, "C08.13") }, MinSites: 1},
+			{ID: "C08.14", Desc: "other variants remain available: the reference list written back is the list in the store, not a snapshot", Run: func(c *Ctx) { ruleIndexUpdateAtomic(c, "C08.14") }, MinSites: 1},
+			{ID: "C08.15", Desc: "a full cacheable reply to a validation request replaces the stored response whatever its status class", Run: func(c *Ctx) { ruleReplaceWheneverStorable(c, "C08.15") }, MinSites: 1},
+			{ID: "C08.16", Desc: "the response a foreground 304 freshens is the one whose validators were sent", Run: func(c *Ctx) { ruleValidatedEntryIsSentEntry(c, "C08.16") }, MinSites: 1},
 		},
 	})
 }
